@@ -289,6 +289,8 @@ func (e *soEnv) sigData(r *Rng, key int, bz []byte, kind string) ([]byte, M) {
 		return []byte{}, M{"k": "empty"}
 	case "garbage":
 		return []byte{0xff, 0xff, 0xff}, M{"k": "garbage"}
+	case "nosum": // unmarshals into SignatureDescriptor_Data with no `sum` set (unknown field 3 only)
+		return []byte{0x18, 0x01}, M{"k": "nosum"}
 	case "otherkey":
 		ok := (key + 2) % soNumKeys // same arity, different key
 		return e.signWith(ok, bz), M{"k": "sig", "sig": M{"k": "signed", "key": ok, "bytes": Hex(bz)}}
@@ -326,7 +328,7 @@ func (e *soEnv) genProofOp(r *Rng, st soState) M {
 	signer, kind := st.key, "ok"
 	mut := "none"
 	if r.Chance(0.45) {
-		mut = Pick(r, []string{"seq+", "seq-", "ts-sign", "ts-stale", "div", "path", "data", "otherkey", "wrongtype", "corrupt", "garbage",
+		mut = Pick(r, []string{"seq+", "seq-", "ts-sign", "ts-stale", "div", "path", "data", "otherkey", "wrongtype", "corrupt", "garbage", "nosum",
 			"empty", "nilproof", "garbageproof", "pathlen", "pathother", "xmember"})
 	}
 	in := M{"pathKind": "merkle", "path": []string{Hex([]byte("ibc")), Hex(key)}}
@@ -351,7 +353,7 @@ func (e *soEnv) genProofOp(r *Rng, st soState) M {
 		} else {
 			sp.data = append(append([]byte{}, value...), 0)
 		}
-	case "otherkey", "wrongtype", "corrupt", "garbage", "empty":
+	case "otherkey", "wrongtype", "corrupt", "garbage", "empty", "nosum":
 		kind = mut
 	case "pathlen":
 		in["path"] = Pick(r, [][]string{{Hex(key)}, {Hex([]byte("ibc")), Hex(key), Hex(key)}, {}})
@@ -396,7 +398,7 @@ func (e *soEnv) genHeaderOp(r *Rng, st soState) M {
 	headerTs := ts
 	signer, kind, mut := st.key, "ok", "none"
 	if r.Chance(0.4) {
-		mut = Pick(r, []string{"seq+", "seq-", "ts-sign", "ts-stale", "div", "path", "data", "otherkey", "wrongtype", "corrupt", "garbage"})
+		mut = Pick(r, []string{"seq+", "seq-", "ts-sign", "ts-stale", "div", "path", "data", "otherkey", "wrongtype", "corrupt", "garbage", "nosum"})
 	}
 	switch mut {
 	case "seq+":
@@ -466,7 +468,7 @@ func (e *soEnv) genMisbehaviourOp(r *Rng, st soState) M {
 		signed := sp
 		kind := "ok"
 		if r.Chance(0.3) {
-			switch Pick(r, []string{"seq", "ts", "div", "path", "data", "otherkey", "corrupt", "garbage", "emptydata"}) {
+			switch Pick(r, []string{"seq", "ts", "div", "path", "data", "otherkey", "corrupt", "garbage", "nosum", "emptydata"}) {
 			case "seq":
 				signed.seq++
 			case "ts":
@@ -483,6 +485,8 @@ func (e *soEnv) genMisbehaviourOp(r *Rng, st soState) M {
 				kind = "corrupt"
 			case "garbage":
 				kind = "garbage"
+			case "nosum":
+				kind = "nosum"
 			case "emptydata":
 				sp.data, signed.data = nil, nil
 			}
